@@ -200,7 +200,8 @@ class PieceNode:
             partial = pathnode.get_part(loc)
             val = self._find_matches(filemap, paths[1:], data + partial)
             if val:
-                dest_path = os.path.join(self.dest, pathnode.full)
+                dest_path = os.path.normpath(
+                    os.path.join(self.dest, pathnode.full))
                 if not _inside(self.dest, dest_path):
                     return False
                 copypath(loc, dest_path)
@@ -417,7 +418,8 @@ class Metadata(CbMixin, ProgMixin):
                 if size == length:
                     hasher = HasherV2(path, self.piece_length, True)
                     if entry["root"] == hasher.root:
-                        dest_path = os.path.join(dest, entry["full"])
+                        dest_path = os.path.normpath(
+                            os.path.join(dest, entry["full"]))
                         if not _inside(dest, dest_path):
                             continue
                         copypath(path, dest_path)
